@@ -4,12 +4,14 @@
    measured per run by harness/props/C05.py.  What is proved: (R-layer) the residual that refine_droplet builds
    (generated from `_image_deviation`) vanishes at the true parameters of an affinely rescaled rendering (generated
    from `_get_phase_field` / `get_phase_field`), for supplied and for fitted levels; in one dimension a vanishing
-   residual on three suitable cells forces centre, radius and width; (D-layer) every candidate that locate_droplets
-   builds is a feasible start of the optimiser and its refinement returns a droplet.
-   Missing (named): identifiability with FITTED levels and in more than one dimension, and convergence. *)
+   residual on three suitable cells forces centre, radius and width; in EVERY dimension (any metric: symmetric,
+   dist x x = 0, dist x y = 0 -> x = y; Euclidean instances d = 1, 2, 3) a residual vanishing at the two centres and
+   one further point forces centre, radius and width, i.e. the zero-residual point of the fit is unique; (D-layer)
+   every candidate that locate_droplets builds is a feasible start of the optimiser and its refinement returns a droplet.
+   Missing (named): identifiability with FITTED levels, identifiability from grid cells alone in d >= 2, convergence. *)
 From Coq Require Import Reals QArith List Bool.
 Import ListNotations.
-From PD Require Import Gen.Gen_shapes Gen.Gen_refine_R Proofs.Profile Proofs.C05.
+From PD Require Import Gen.Gen_shapes Gen.Gen_refine_R Proofs.Profile Proofs.C05 Proofs.C05Metric.
 From PD Require Import Model.Grid Gen.Gen_refine Model.Refine Proofs.Refine Proofs.C04 Proofs.RefineCand.
 
 Local Open Scope R_scope.
@@ -46,6 +48,36 @@ Theorem C05_identifiable_1d : forall a b c R w c' R' w' x1 x2 x3,
   c' = c /\ R' = R /\ w' = w.
 Proof. exact identifiable_1d. Qed.
 Print Assumptions C05_identifiable_1d.
+
+(* every dimension, every metric: zero residual at the two centres and one further point forces the truth *)
+Theorem C05_identifiable_metric : forall (X : Type) (dist : X -> X -> R),
+  (forall x y, dist x y = dist y x) -> (forall x, dist x x = 0) -> (forall x y, dist x y = 0 -> x = y) ->
+  forall a b (c c' x0 : X) R w R' w',
+  a <> 0 -> 0 < w -> 0 < w' -> x0 <> c ->
+  (forall x, In x [c; c'; x0] ->
+     residual_plain b a (diffuse_profile (dist x c') R' w')
+                        (scale_value b (a + b) (diffuse_profile (dist x c) R w)) = 0) ->
+  c' = c /\ R' = R /\ w' = w.
+Proof. exact identifiable_metric. Qed.
+Print Assumptions C05_identifiable_metric.
+
+Theorem C05_identifiable_euclid_2d : forall a b (c c' x0 : R * R) R w R' w',
+  a <> 0 -> 0 < w -> 0 < w' -> x0 <> c ->
+  (forall x, In x [c; c'; x0] ->
+     residual_plain b a (diffuse_profile (euclid2 x c') R' w')
+                        (scale_value b (a + b) (diffuse_profile (euclid2 x c) R w)) = 0) ->
+  c' = c /\ R' = R /\ w' = w.
+Proof. exact identifiable_euclid_2d. Qed.
+Print Assumptions C05_identifiable_euclid_2d.
+
+Theorem C05_identifiable_euclid_3d : forall a b (c c' x0 : R * R * R) R w R' w',
+  a <> 0 -> 0 < w -> 0 < w' -> x0 <> c ->
+  (forall x, In x [c; c'; x0] ->
+     residual_plain b a (diffuse_profile (euclid3 x c') R' w')
+                        (scale_value b (a + b) (diffuse_profile (euclid3 x c) R w)) = 0) ->
+  c' = c /\ R' = R /\ w' = w.
+Proof. exact identifiable_euclid_3d. Qed.
+Print Assumptions C05_identifiable_euclid_3d.
 
 (* the core: profile values at two distinct distances determine radius and width *)
 Theorem C05_two_distances_determine : forall R w R' w' d1 d2, 0 < w -> 0 < w' -> d1 <> d2 ->
